@@ -1009,6 +1009,29 @@ pub fn run(ctx: &Ctx) -> Report {
         }
         if rep.full() { break; }
     }
+    // chunk indices beyond one byte of the nonce counter (more than 256 chunks = 32 MiB): decoded with the
+    // reference crates only (the list-based model would need gigabytes); thorough tier
+    if ctx.thorough {
+        let cfg = Cfg::make(&mut r1, L_ENC);
+        let n = 258 * CONSTS.chunk + 77;
+        let ops = vec![Op::Add { name: "big".into(), size: n as u64, src: r1.bytes(n, 3) }, Op::Finalize];
+        let b = build(&cfg, &ops);
+        rep.eval(fnv(b"nonce-counter-second-byte"), true);
+        let spec = spec_of(&ops, &b.results);
+        let ok = match peel(&b.bytes, &cfg) {
+            Ok(inner) => {
+                let m = read_all(&[&b"MLA\x01\x00\x00\x00\x00\x00"[..], &inner[..]].concat(), &Cfg::plain());
+                m.map(|g| g.get("big").map(|f| f.content.as_ref().ok() == spec.get("big")).unwrap_or(false)).unwrap_or(false)
+            }
+            Err(_) => false,
+        };
+        if !ok {
+            rep.violation("oracle", "C06/dir1/decode", json!({"what":"chunk-index-above-255"}),
+                "an archive of more than 256 chunks is not decoded by the reference implementation of the format (nonce = archive nonce ‖ be32(chunk index))",
+                json!({"kind":"dir1","cfg":cfg.to_json(),"note":"258 chunks, encrypt only"}));
+        }
+        rep.count("dir1:258-chunks");
+    }
     // the constants the model was written with
     let k = model.call(json!({"cmd":"format.consts"}));
     rep.measurements.insert("model_constants".into(), k.clone());
